@@ -201,6 +201,13 @@ def apply_method_decorators(ex, fi, fv, selfv):
 def class_attr_value(ex, ci, name, expr):
     cache = ex.run.ghost.setdefault('_modcache', {})
     key = ('classattr', ci.key, name)
+    import ast as _ast
+    if (isinstance(expr, _ast.Dict) and not expr.keys) or \
+            (isinstance(expr, _ast.Call) and isinstance(expr.func, _ast.Name) and expr.func.id in ('dict', 'set', 'defaultdict', 'OrderedDict') and not expr.keywords
+             and (expr.func.id == 'defaultdict' or not expr.args)):
+        # an empty dict / set at class level is state shared by every instance and every call: its content at the time of the call is
+        # not its initial value, and the executor has no model of that history
+        raise OutOfSubset(f'class attribute {ci.name}.{name} is an empty mutable container (state shared between calls)')
     if key not in cache:
         fr = Frame(None, ci.module)
         fr.fi = type('X', (), {'qualname': ci.name, 'key': ci.key})()
